@@ -152,8 +152,8 @@ Theorem colat_spec f k i n v :
 Proof.
   unfold op_colat. split.
   - intros H. destruct (fget f k) as [c|]; [|discriminate].
-    destruct (zidx (cdata c) i) as [w|]; [|discriminate].
-    inversion H; subst. exists c. Show. auto.
+    destruct (zidx (cdata c) i) as [w|] eqn:E; [|discriminate].
+    inversion H; subst. exists c. auto.
   - intros [c [G [Hn Hz]]]. rewrite G, Hz. now subst n.
 Qed.
 
@@ -654,7 +654,7 @@ Proof. vm_compute. split; reflexivity. Qed.
 
 Example ex_string_12_head :
   let s := op_string exO ex12 in
-  firstn 39 s = vlit "DataFrame (12 rows x 2 columns)" ++ s_nl ++ vlit "a" ++ s_tab ++ vlit "b" ++ s_nl ++
+  firstn 40 s = vlit "DataFrame (12 rows x 2 columns)" ++ s_nl ++ vlit "a" ++ s_tab ++ vlit "b" ++ s_nl ++
                 vlit "1" ++ s_tab ++ vlit "-1".
 Proof. vm_compute. reflexivity. Qed.
 
@@ -665,15 +665,10 @@ Proof.
   - reflexivity.
   - vm_compute. discriminate.
   - repeat constructor.
-  - intros i k c v G. cbn [ex12 fget] in G.
-    destruct (str_eqb k (vlit "a")).
-    + inversion G; subst c. cbn [cdata snd]. intros Hn.
-      apply nth_opt_in in Hn. unfold ints in Hn. apply in_map_iff in Hn. destruct Hn as [z [Hz _]].
-      subst v. apply count_nl_dec_Z.
-    + destruct (str_eqb k (vlit "b")); [|discriminate].
-      inversion G; subst c. cbn [cdata snd]. intros Hn.
-      apply nth_opt_in in Hn. rewrite map_map in Hn. apply in_map_iff in Hn. destruct Hn as [z [Hz _]].
-      subst v. cbn [render]. apply count_nl_dec_Z.
+  - intros i k c v G Hn. apply nth_opt_in in Hn. revert v Hn. apply Forall_forall.
+    cbn [ex12 fget] in G.
+    destruct (str_eqb k (vlit "a")); [|destruct (str_eqb k (vlit "b")); [|discriminate]];
+      inversion G; subst c; repeat constructor.
 Qed.
 
 (* string_prefix_independent applies to two different frames *)
